@@ -57,7 +57,7 @@ def _history(draw, D0, R0, L):
     steps = []
     last_f = None
     n = draw(st.integers(1, L))
-    OPS = ["multiply", "multiply", "hadamard", "product", "slice", "normalize", "get_density", "get_marginal", "condition_on",
+    OPS = ["multiply", "multiply", "hadamard", "product", "replace", "slice", "normalize", "get_density", "get_marginal", "condition_on",
            "update", "linear_sum", "joint", "marginal_t", "conditional_t", "cond_x", "update_Sigma", "warm", "warm", "approx"]
     for _ in range(n):
         op = draw(st.sampled_from(OPS))
@@ -89,6 +89,13 @@ def _history(draw, D0, R0, L):
         elif op == "product":
             stp = {"op": op, "i": i}
             objs.append({"pdf": False, "R": 1, "D": o["D"]})
+        elif op == "replace" and not o["pdf"]:
+            # the dataclass utility replace(): a new measure with another information vector or log-constant (fields without
+            # dependent constructor arguments; the lazily filled mean / log-normaliser must be recomputed for the new object)
+            fld = draw(st.sampled_from(["nu", "ln_beta"]))
+            val = draw(gen.arr((o["R"], o["D"]))) if fld == "nu" else draw(gen.arr((o["R"],)))
+            stp = {"op": op, "i": i, "field": fld, "value": val}
+            objs.append({"pdf": False, "R": o["R"], "D": o["D"]})
         elif op == "slice":
             idx = draw(gen.index_array(o["R"], 1, 3))
             if o["R"] > 16:
@@ -414,6 +421,13 @@ def _run(case):
         elif op == "product":
             m = objs[stp["i"]]
             r = produce("product", lambda: m.product(), lambda: _clone_measure(m).product())
+            if r is not None:
+                objs.append(r)
+                stats["producing"] += 1
+        elif op == "replace":
+            m = objs[stp["i"]]
+            kwv = {stp["field"]: J(stp["value"])}
+            r = produce(f"replace[{stp['field']}]", lambda: m.replace(**kwv), lambda: _clone_measure(m).replace(**kwv))
             if r is not None:
                 objs.append(r)
                 stats["producing"] += 1
